@@ -182,11 +182,20 @@ impl String {
         if s.is_empty() {
             return String { id: EMPTY_ID };
         }
-        let id = fnv(s) | 1;
-        set_len_of(id, s.len() as u32);
-        String { id }
+        // a string whose content is registered (codec harnesses) keeps its identity
+        if let Some(id) = lookup_content(s.as_bytes()) {
+            return String { id };
+        }
+        String { id: fnv(s) | 1 }
+    }
+    /// harness side (codec harnesses): a string with concrete content
+    pub fn with_content(s: &[u8]) -> Self {
+        String { id: content_id(s) }
     }
     pub fn len(&self) -> u32 {
+        if self.id != EMPTY_ID && has_content(self.id) {
+            return content_of(self.id).len() as u32;
+        }
         len_of(self.id)
     }
     pub fn is_empty(&self) -> bool {
@@ -195,8 +204,19 @@ impl String {
     pub fn to_val(&self) -> String {
         self.clone()
     }
-    pub fn copy_into_slice(&self, _s: &mut [u8]) {
-        harness_bug("String content is abstract: stub the caller by its contract")
+    pub fn copy_into_slice(&self, out: &mut [u8]) {
+        if !has_content(self.id) {
+            harness_bug("String content is abstract: stub the caller by its contract");
+        }
+        let c = content_of(self.id);
+        if c.len() != out.len() {
+            trap();
+        }
+        let mut i = 0;
+        while i < out.len() {
+            out[i] = c[i];
+            i += 1;
+        }
     }
 }
 impl Wordy for String {
@@ -263,6 +283,9 @@ impl Bytes {
         Bytes { id: EMPTY_ID }
     }
     pub fn len(&self) -> u32 {
+        if self.id != EMPTY_ID && has_content(self.id) {
+            return content_of(self.id).len() as u32;
+        }
         len_of(self.id)
     }
     pub fn is_empty(&self) -> bool {
